@@ -89,6 +89,28 @@ THEOREMS = [
     "IrVerif.Clone.C13_functionalize_ext3",
     "IrVerif.Clone.C13_frame_orig_edited_ext3",
     "IrVerif.Clone.C13_frame_orig_edited_model_ext3",
+    "IrVerif.Clone.C13_wiring_image_function",
+    "IrVerif.Clone.C13_wiring_image_model",
+    "IrVerif.Clone.C13_model_function_keys",
+    "IrVerif.Clone.C13_faithful_function_of_wiring",
+    "IrVerif.Clone.C13_faithful_model_of_wiring",
+    "IrVerif.Clone.C13_functionalize_hooks",
+    "IrVerif.Clone.C13_irregular_reasons",
+    "IrVerif.Clone.C13_irregular_reasons_function",
+    "IrVerif.Clone.C13_irregular_reasons_model",
+    "IrVerif.Clone.C13_irregular_reachable",
+    "IrVerif.Clone.C13_deep_copy_meta_fresh",
+    "IrVerif.Clone.C13_deep_copy_meta_fresh_all",
+    "IrVerif.Clone.C13_deep_copy_meta_frame",
+    "IrVerif.Clone.C13_deep_copy_meta_frame_reach",
+    "IrVerif.Clone.C13_deep_copy_meta_frame_all",
+    "IrVerif.Clone.C13_deep_copy_meta_faithful",
+    "IrVerif.Clone.C13_shallow_meta_shared",
+    "IrVerif.Clone.C13_frame_ext4",
+    "IrVerif.Clone.C13_frame_clone_edited_ext4",
+    "IrVerif.Clone.C13_functionalize_ext4",
+    "IrVerif.Clone.C13_frame_orig_edited_ext4",
+    "IrVerif.Clone.C13_frame_orig_edited_model_ext4",
 ]
 ASSUMPTIONS = [
     "hand-written model IrVerif.Clone of _cloner.py / the clone entry points / the constructors they call; tied to the "
@@ -99,8 +121,48 @@ ASSUMPTIONS = [
     "intermediate states are not observable (heaps are compared up to renaming after every step, also after raising steps)",
     "a type object is one cell (wrapper chain flattened): sharing of an inner type object between two outer type objects "
     "is not expressible in the model (the oracle still covers it on the real objects); opset_imports dicts are by value",
-    "meta values are opaque atoms in the model (deep_copy=True is the same model function); that deep_copy=True copies the "
-    "objects stored in meta is covered by the oracle only",
+    "meta values are opaque atoms in the heap model IrVerif.Clone (deep_copy=True is the same function there); what "
+    "deep_copy means is modelled by the additive refinement IrVerif.Clone.Meta (Model/CloneMeta.lean): the values of a meta "
+    "store are references into a heap of mutable Python containers - list and dict (string keys) cells, immutable leaves as "
+    "atoms (type name + repr); tuples, sets and objects with __deepcopy__ / __reduce_ex__ are neither modelled nor generated; "
+    "copy.deepcopy is transcribed from CPython copy.py (memo lookup, allocate + memoize, fill; ONE memo per call, i.e. per "
+    "key: aliasing between two keys / two stores is not preserved by a deep clone, aliasing and cycles inside one value "
+    "are); intermediate heaps of one deepcopy call are not modelled (no user code runs during it), allocation order is "
+    "abstracted by first-visit renumbering on both sides, fuel = call depth (64 in the check); compared with the real "
+    "clone(deep_copy=True/False) of graphs / subgraphs / views / functions / models on a separate stream (harness/c13_meta.py, "
+    "driver op clonemeta.run) incl. random in-place edit histories of the stored objects; C13_deep_copy_meta_faithful assumes "
+    "no dangling reference (heapClosedB, storeOkB: evaluated on every case, all true); Attr.meta and Model.meta are outside "
+    "(Model.clone does not copy Model.meta: counted as observation=model-meta-not-cloned)",
+    "DECISION deep_copy=False (the default; also what functionalize uses): the statement demands new metadata CONTAINERS - "
+    "the MetadataStore / metadata_props dict of the clone are new objects (C13_fresh) and meta[k]=x / del / invalidate on "
+    "one copy never show in the other (C13_frame) - not new CONTENTS: the stored objects are shared by design like tensors "
+    "(C13_shallow_meta_shared with a witness that an in-place edit through one store is visible through the other); the "
+    "oracle counts it as observation=meta-shared:* (also for functionalize), never as a failure",
+    "C13_wiring_image_function / _model: hypothesis = funcVerdict / modelVerdict accepts; Function.clone's cloner state is "
+    "funcCloneCore's final state (funcClone = withFreshMap funcCloneCore by rfl); for Model.clone the driver replays the "
+    "steps with modelCloneTrace (one value map per cloner) and checks on every request that clone and heap are those of "
+    "modelClone; every map is compared with the REAL Cloner._value_map of that cloner (1 + #functions cloners, captured by "
+    "wrapping Cloner.__init__) and an independent oracle evaluates FuncWire / ModelWire on the real objects (header fields, "
+    "opset imports, metadata_props equal and a new dict, device configurations equal, function keys and order, pairwise "
+    "disjoint value maps); ModelWire states equality of metadata_props CONTENT and that the clone's meta is empty",
+    "C13_functionalize_hooks: a hook (requires / ensures of a pass or of the pipeline object) is modelled as a function from "
+    "(model it is handed, heap) to a history of the 44 calls of Edit2 plus a flag 'raises' (any exception becomes "
+    "PreconditionError / PostconditionError; what the hook did before raising stays); modified flags are functions of (model, "
+    "heap); the generated pipelines override the hooks of every stage and (half of the time) of the Sequential / PassManager "
+    "object, spread the edit history over requires / call / ensures of every call of every round, raise in one chosen hook, "
+    "report modified=True in the first mod_rounds rounds only and run PassManager with early_stop; the driver glues the rounds "
+    "(one pass list per round since the histories differ per call) from the model's own runStagesH / runHook / callChecked "
+    "exactly as runRoundsH does and checks the answer against functionalizeHooks whenever one pass list suffices; compared: "
+    "outcome (ok / PreconditionError / PostconditionError), number of rounds, heap - also after a raising pipeline; the hooks "
+    "of _FunctionalPassWrapper itself are the no-op defaults of a private class",
+    "C13_irregular_reasons: the walker answers irregular only for (1) a dangling pointer - impossible when closedW (every "
+    "pointer field of every cell names a cell; evaluated on every abstracted heap, all true), (2) a node output already "
+    "bound, (3) initializer names not pairwise different; (2) and (3) are reachable with the public API (a GraphView listing "
+    "an output of one of its own nodes among its inputs; a GraphView whose initializer keys went stale after a rename) and "
+    "are GENERATED (gen_spec_irregular, 2% of the cases): outcome, heap and value map of the model are compared with the "
+    "real clone there too (the model's map is a list with the latest binding first where Python overwrites the dict entry), "
+    "the wiring oracle is off, and the consequences are counted as observation=irregular-shape:* / observation=D346:* "
+    "(finding D346, proposed_fixes/D346.diff, not applied: the clone of a stale-key view silently loses an initializer)",
     "tensors, attribute payloads and device-configuration payloads are opaque shared ids; in-place mutation of a shared "
     "Attr object (Attr.name=, Attr.doc_string=) or of a shared tensor (its .name follows Value.name=) is outside the edit "
     "alphabet: the property allows tensors to be shared and the cloner shares non-graph attributes",
@@ -136,12 +198,12 @@ ASSUMPTIONS = [
     "disjunct: D342 for sharding specs, and a value that is captured before a sibling subgraph binds it)",
     "C13_model_clone_succeeds / _raises_iff: hypothesis = modelVerdict (cloneVerdict of the main graph, then funcVerdict of "
     "every function, all on the SOURCE heap), compared with the real Model.clone / functionalize outcome and with the "
-    "model's on every generated model target; 'irregular' carries no claim",
+    "model's on every generated model target; 'irregular' carries no claim (when it is answered: C13_irregular_reasons)",
     "C13_functionalize_any: a stage of a pipeline is a function from the model it is handed to a history of the 44 calls "
     "of Edit2, optionally followed by building a new ir.Model around the SAME graph / functions / device configurations "
     "(metadata_props copied into a new dict); PassManager(steps=k, early_stop=False) is the k-fold repetition of its "
     "stages (a stage that reports modified=False with early_stop=True ends the loop earlier: a prefix, covered by the "
-    "quantification over all stage lists); requires()/ensures() hooks are not modelled (default: no-ops); the generated "
+    "quantification over all stage lists); requires()/ensures() hooks and early_stop: C13_functionalize_hooks; the generated "
     "pipelines are Sequential / PassManager of in-place stages, functional 'stamp' stages and destructive stages with the "
     "flags their base classes declare; the oracle compares a deep snapshot and the serialized proto of the input model "
     "(and of every other pre-existing root) before / after, and again after editing the returned model",
@@ -390,7 +452,7 @@ class Built:
     def view(self, vs):
         g = self.graphs[vs["of"]]
         nodes = [n for i, n in enumerate(g) if i in set(vs["nodes"])]
-        return ir.GraphView(
+        view = ir.GraphView(
             [self.values[x] for x in vs["inputs"]],
             [self.values[x] for x in vs["outputs"]],
             nodes=nodes,
@@ -400,6 +462,10 @@ class Built:
             name=vs["name"],
             metadata_props=dict(vs["props"]) if vs.get("props") else None,
         )
+        for old, new in vs.get("rename_after", []):
+            # a value renamed AFTER the view was made: the keys of the view's initializer dict go stale
+            self.values[old].name = new
+        return view
 
     def target(self):
         t = self.spec["target"]
@@ -1086,12 +1152,85 @@ def check_wiring(out, spec, src, clone, vmap, allow, tag):
                 if tuple(sp.device) != tuple(sp2.device) or not img_ok(sp.value, sp2.value):
                     bad.append("dev-spec")
 
-    graph(src, clone)
+    def attr_decls(f, f2):
+        # attribute declarations of a function: graph-valued defaults are cloned under the SAME value map
+        if list(f.attributes.keys()) != list(f2.attributes.keys()):
+            bad.append("func-attr-keys")
+            return
+        for a in f.attributes.values():
+            a2 = f2.attributes[a.name]
+            if not a.is_ref() and a.type == ir.AttributeType.GRAPH:
+                if a2 is a or a2.is_ref() or a2.type != ir.AttributeType.GRAPH:
+                    bad.append("func-attr-graph-shared")
+                else:
+                    graph(a.value, a2.value)
+            elif not a.is_ref() and a.type == ir.AttributeType.GRAPHS:
+                if a2 is a or a2.is_ref() or a2.type != ir.AttributeType.GRAPHS or len(a.value) != len(a2.value):
+                    bad.append("func-attr-graphs-shared")
+                else:
+                    for x, x2 in zip(a.value, a2.value):
+                        graph(x, x2)
+            elif a2 is not a:
+                bad.append("func-attr-not-shared")
+
+    if isinstance(src, ir.Function):
+        # C13_wiring_image_function: same identifier, body and graph-valued attribute declarations are images
+        if src.identifier() != clone.identifier():
+            bad.append("func-identifier")
+        graph(src.graph, clone.graph)
+        attr_decls(src, clone)
+        what = "wiring_image_function"
+    else:
+        graph(src, clone)
+        what = "wiring_image"
+    # the map itself (C13_value_map_bijection): injective, every target is a value the clone owns
+    if len({id(v) for v in vmap.values()}) != len(vmap):
+        bad.append("value-map-not-injective")
     if bad:
         out.fail(f"wiring:{bad[0]}:{tag}", "the clone is not the image of the source under the cloner's value map",
                  {"spec": spec, "bad": sorted(set(bad))})  # fmt: skip
     else:
-        out.count("wiring_image_holds_on_real_objects=True")
+        out.count(f"{what}_holds_on_real_objects=True")
+    return not bad
+
+
+def check_wiring_model(out, spec, src, clone, maps, tag):
+    """C13_wiring_image_model on the real objects: header fields, opset imports, metadata_props and device configurations
+    equal, `meta` of the clone empty, functions filed under the same keys in the same order, the main graph the image
+    under the FIRST cloner's map and function i the image under the (i+1)-th cloner's map; the maps' targets are
+    pairwise disjoint (every cloner creates its own values)."""
+    bad: list[str] = []
+    fields = ("ir_version", "producer_name", "producer_version", "domain", "model_version", "doc_string")
+    if any(getattr(src, f) != getattr(clone, f) for f in fields):
+        bad.append("model-header")
+    if dict(src.opset_imports) != dict(clone.opset_imports):
+        bad.append("model-opsets")
+    if dict(src.metadata_props) != dict(clone.metadata_props) or (src.metadata_props is clone.metadata_props):
+        bad.append("model-metadata-props")
+    if tuple(src.device_configurations or ()) != tuple(clone.device_configurations or ()):
+        bad.append("model-device-configurations")
+    if len(clone.meta):
+        out.count("observation=model-meta-copied")  # Model.clone does not copy Model.meta (the model says: empty)
+    if list(src.functions.keys()) != list(clone.functions.keys()):
+        bad.append("model-function-keys")
+    fs, fs2 = list(src.functions.values()), list(clone.functions.values())
+    if len(maps) != 1 + len(fs) or len(fs) != len(fs2):
+        bad.append("model-cloner-count")
+    if bad:
+        out.fail(f"wiring:{bad[0]}:{tag}", "the cloned model is not the image of the source model",
+                 {"spec": spec, "bad": sorted(set(bad))})  # fmt: skip
+        return False
+    ok = check_wiring(out, spec, src.graph, clone.graph, {id(k): v for k, v in maps[0].items()}, False, tag + ":main")
+    for f, f2, vm in zip(fs, fs2, maps[1:]):
+        ok = check_wiring(out, spec, f, f2, {id(k): v for k, v in vm.items()}, False, tag + ":function") and ok
+    targets = [id(v) for vm in maps for v in vm.values()]
+    if len(set(targets)) != len(targets):
+        out.fail(f"wiring:value-maps-overlap:{tag}", "two cloners of one Model.clone produced the same value object",
+                 {"spec": spec})  # fmt: skip
+        ok = False
+    if ok:
+        out.count("wiring_image_model_holds_on_real_objects=True")
+    return ok
 
 
 def check_clone_oracle(out, spec, src, clone, pre_cells, src_ser, tag, later=frozenset()):
@@ -1103,7 +1242,12 @@ def check_clone_oracle(out, spec, src, clone, pre_cells, src_ser, tag, later=fro
     case = {"spec": spec}
     # faithful
     cl_ser = serialize(clone)
-    if isinstance(src_ser, bytes) and cl_ser != src_ser:
+    if spec.get("irregular") == "stale-init-key":
+        # finding D346 (reported; the walker answers `irregular`, C13_irregular_reachable): the clone of a view whose
+        # initializer keys went stale has fewer initializers than the view; counted, not failed
+        n_src, n_cl = len(list(src.initializers.values())), len(list(clone.initializers.values()))
+        out.count(f"observation=D346:stale-init-key:initializers={n_src}->{n_cl}:serialized_equal={cl_ser == src_ser}")
+    elif isinstance(src_ser, bytes) and cl_ser != src_ser:
         what = "serialized clone differs from the serialized original"
         sig = f"faithful:{tag}"
         if any(n.name is None for n in walk(src)[1]):
@@ -1141,6 +1285,11 @@ def check_clone_oracle(out, spec, src, clone, pre_cells, src_ser, tag, later=fro
                 # allow_outer_scope_values=True keeps it on the ORIGINAL's value.  C13_spec_unbound_D342 states
                 # exactly this of the model; counted as an observation, not as a failure
                 out.count("observation=D342:allow=True:spec-kept-on-original-value")
+                continue
+            if spec.get("irregular") == "stale-init-key":
+                # finding D346: the clone of the initializer that lost its place in the clone's initializer dict is a
+                # free value: a node of the clone consumes a value the clone graph does not define
+                out.count("observation=D346:stale-init-key:clone-consumes-undefined-value")
                 continue
             kindsig = "own-value-of-original" if id(v) in defined_src else "outer-value"
             order = "sorted" if ordered else "unsorted"
@@ -1291,6 +1440,40 @@ def apply_edit(heap: Heap, b: Built, e):
             for v, nm in zip(new.outputs, e["outs"]):
                 v.name = nm
             ir.convenience.replace_nodes_and_values(O(e["g"]), old, [old], [new], list(old.outputs), list(new.outputs))
+        # the fourth alphabet (Edit4): item-level calls on graph.inputs / graph.outputs, initializers.setdefault,
+        # extended slices, replace_nodes_and_values with several nodes
+        elif k in ("insertInput", "insertOutput"):
+            (O(e["g"]).inputs if k == "insertInput" else O(e["g"]).outputs).insert(e["i"], O(e["v"]))
+        elif k in ("removeInput", "removeOutput"):
+            (O(e["g"]).inputs if k == "removeInput" else O(e["g"]).outputs).remove(O(e["v"]))
+        elif k in ("delInputAt", "delOutputAt"):
+            del (O(e["g"]).inputs if k == "delInputAt" else O(e["g"]).outputs)[e["i"]]
+        elif k in ("setInputAt", "setOutputAt"):
+            (O(e["g"]).inputs if k == "setInputAt" else O(e["g"]).outputs)[e["i"]] = O(e["v"])
+        elif k in ("extendInputs", "extendOutputs"):
+            (O(e["g"]).inputs if k == "extendInputs" else O(e["g"]).outputs).extend([O(v) for v in e["vs"]])
+        elif k in ("clearInputs", "clearOutputs"):
+            (O(e["g"]).inputs if k == "clearInputs" else O(e["g"]).outputs).clear()
+        elif k == "setdefaultInit":
+            O(e["g"]).initializers.setdefault(e["key"], O(e["v"]))
+        elif k in ("setInputsStep", "setOutputsStep"):
+            lst = O(e["g"]).inputs if k == "setInputsStep" else O(e["g"]).outputs
+            lst[e["a"] : e["b"] : e["step"]] = [O(v) for v in e["vs"]]
+        elif k in ("delInputsStep", "delOutputsStep"):
+            lst = O(e["g"]).inputs if k == "delInputsStep" else O(e["g"]).outputs
+            del lst[e["a"] : e["b"] : e["step"]]
+        elif k == "replaceNodes":
+            built = []
+            for nn in e["news"]:
+                ins = [None if x is None else (built[x[0]].outputs[x[1]] if isinstance(x, list) else O(x))
+                       for x in nn["inputs"]]  # fmt: skip
+                new = ir.Node("", nn["opname"], ins, name=nn["name"], num_outputs=len(nn["outs"]))
+                for v, nm in zip(new.outputs, nn["outs"]):
+                    v.name = nm
+                built.append(new)
+            ir.convenience.replace_nodes_and_values(
+                O(e["g"]), O(e["anchor"]), [O(n) for n in e["ns"]], built, [O(v) for v in e["ovs"]],
+                [built[kk].outputs[jj] for kk, jj in e["nvs"]])  # fmt: skip
         elif k == "insertBefore":
             O(e["g"]).insert_before(O(e["anchor"]), O(e["n"]))
         elif k == "insertAfter":
@@ -1338,6 +1521,12 @@ _ID_FIELDS = {"v", "o", "n", "g", "f", "mo", "r", "anchor"}
 # edits whose effect lies outside the model (in-place state of Attr objects): applied to the real objects and
 # judged by the oracle, not sent to the model
 ORACLE_ONLY = {"attrMetaSet"}
+# the edit kinds only the fourth alphabet has (`IrVerif.Clone.Edit4`, Model/Clone4.lean): histories that contain one
+# are run with `runHistory4` / `functionalize4` (driver ops clone.history4 / clone.functionalize4; the driver also
+# answers clone.history / clone.functionalize with them when such a kind is present)
+EDIT4_KINDS = {"insertInput", "insertOutput", "removeInput", "removeOutput", "delInputAt", "delOutputAt", "setInputAt",
+               "setOutputAt", "extendInputs", "extendOutputs", "clearInputs", "clearOutputs", "setdefaultInit",
+               "setInputsStep", "setOutputsStep", "delInputsStep", "delOutputsStep", "replaceNodes"}
 
 
 # --------------------------------------------------------------------------- generators
@@ -1585,6 +1774,35 @@ def gen_spec_nonlocal_spec(rng):
     return spec
 
 
+def gen_spec_irregular(rng):
+    """the two `irregular` walker verdicts that are reachable through the public API (C13_irregular_reachable):
+    'own-output-as-input': a GraphView that lists the output of one of its own nodes among its inputs (the value is
+    cloned twice: as a graph input and as a node output; the value map's binding is overwritten);
+    'stale-init-key': a GraphView made with initializers [w, x] whose second value is renamed to w's name afterwards
+    (the keys of the view's dict go stale; Graph(initializers=...) in the cloner files the clones under their NAMES, so
+    the clone has one initializer where the source has two: finding D346)."""
+    sg = SpecGen(rng, 2)
+    x, va, vb = sg.value("x"), sg.value("v"), sg.value("v")
+    base = {"ntensors": 3, "type_pool": [gen_type(rng) for _ in range(sg.ntypes)],
+            "shape_pool": [gen_shape(rng) for _ in range(sg.nshapes)], "nconfigs": 0, "functions": []}
+    if rng.random() < 0.5:
+        nodes = [{"name": sg.name("n"), "op": "Relu", "inputs": [x["name"]], "outs": [va], "attrs": []},
+                 {"name": sg.name("n"), "op": "Neg", "inputs": [va["name"]], "outs": [vb], "attrs": []}]
+        g1 = {"name": "g1", "inputs": [x], "inits": [], "nodes": nodes, "outputs": [vb["name"]]}
+        view = {"name": "view0", "of": "g1", "nodes": [0, 1], "inputs": [x["name"], va["name"]], "inits": [],
+                "outputs": [vb["name"]]}
+        kind = "own-output-as-input"
+    else:
+        w = sg.value("w")
+        w["const"] = 0
+        nodes = [{"name": sg.name("n"), "op": "Add", "inputs": [w["name"], x["name"]], "outs": [va], "attrs": []}]
+        g1 = {"name": "g1", "inputs": [x], "inits": [w], "nodes": nodes, "outputs": [va["name"]]}
+        view = {"name": "view0", "of": "g1", "nodes": [0], "inputs": [], "inits": [w["name"], x["name"]],
+                "outputs": [va["name"]], "rename_after": [[x["name"], w["name"]]]}
+        kind = "stale-init-key"
+    return {**base, "graph": g1, "views": [view], "target": {"kind": "view", "name": "view0"}, "irregular": kind}
+
+
 def random_sub(rng):
     import random
 
@@ -1623,11 +1841,14 @@ def gen_spec(rng, size=4):
         return gen_spec_nonlocal_spec(rng)
     if LATER_SPEC_P and rng.random() < 0.03:
         return gen_spec_later_spec(rng)
+    if rng.random() < 0.02:
+        return gen_spec_irregular(rng)
     if rng.random() < 0.05:
         # a dedicated stream for C13_functionalize_any: any model, functionalize(pipeline)
         sub = random_sub(rng)
         spec = gen_spec(sub, size)
         spec["target"] = {"kind": "functionalize", "stages": gen_stages(rng)}
+        spec.pop("irregular", None)  # (the irregular shapes are about the view target)
         return spec
     if rng.random() < 0.1:
         return gen_spec_failing_after_nested(rng)
@@ -1729,7 +1950,23 @@ def gen_stages(rng):
     else:
         kinds = ["rewrap", "rewrap", "inplace"]
     manager = rng.random() < 0.4
-    return {"kinds": kinds, "manager": manager, "steps": rng.choice([1, 2, 2]) if manager else 1}
+    plan = {"kinds": kinds, "manager": manager, "steps": rng.choice([1, 2, 2]) if manager else 1}
+    if rng.random() < 0.45:
+        # C13_functionalize_hooks: requires() / ensures() hooks that edit the model they are handed and may raise, the
+        # `modified` flags the passes report (True in the first `mod_rounds` rounds) and PassManager's early_stop
+        if manager:
+            plan["steps"] = rng.choice([1, 2, 3])
+        ncalls = plan["steps"] * len(kinds)
+        r = rng.random()
+        if r < 0.5:
+            raise_at = None
+        elif r < 0.8:
+            raise_at = [rng.choice(["req", "ens"]), rng.randrange(ncalls)]
+        else:
+            raise_at = [rng.choice(["outer_req", "outer_ens"]), None]
+        plan["hooks"] = {"early_stop": manager and rng.random() < 0.7, "mod_rounds": rng.randrange(0, plan["steps"] + 1),
+                         "raise": raise_at, "outer": rng.random() < 0.5 or bool(raise_at and raise_at[0].startswith("outer"))}  # fmt: skip
+    return plan
 
 
 def gen_edits(rng, heap: Heap, b: Built, side_root, n_edits):
@@ -1795,9 +2032,26 @@ def gen_edits(rng, heap: Heap, b: Built, side_root, n_edits):
                 kinds3 += ["extendNodes", "removeSafe", "removeSafe", "replaceNode", "replaceNode"]
         if vv:
             kinds3 += ["rauwMulti", "renameValues", "renameValues"]
+        # the fourth alphabet (Edit4): item-level calls on graph.inputs / outputs, initializers.setdefault, extended
+        # slices, replace_nodes_and_values with several old / new nodes (share: env C13_EDIT4_P, default 0.15)
+        kinds4 = []
+        if gv:
+            kinds4 += ["delInputAt", "delOutputAt", "clearInputs", "clearOutputs", "delInputsStep", "delOutputsStep"]
+            if vv:
+                kinds4 += ["insertInput", "insertOutput", "removeInput", "removeOutput", "setInputAt", "setOutputAt",
+                           "extendInputs", "extendOutputs", "setdefaultInit", "setdefaultInit", "setInputsStep",
+                           "setInputsStep", "setOutputsStep", "setOutputsStep"]  # fmt: skip
+            if nv:
+                kinds4 += ["replaceNodes", "replaceNodes", "replaceNodes"]
+        tgt4 = b.spec.get("target", {}) if isinstance(b.spec, dict) else {}
+        if tgt4.get("kind") == "functionalize" and tgt4.get("stages"):
+            kinds4 = []  # staged pipelines are modelled over Edit2 (`functionalizeAny`): no calls of the later alphabets
         if not kinds and not kinds2:
             break
-        if kinds3 and EDIT3_P and rng.random() < EDIT3_P:
+        edit4_p = float(__import__("os").environ.get("C13_EDIT4_P", "0.15") or 0)
+        if kinds4 and edit4_p and rng.random() < edit4_p:
+            k = rng.choice(kinds4)
+        elif kinds3 and EDIT3_P and rng.random() < EDIT3_P:
             k = rng.choice(kinds3)
         else:
             k = rng.choice(kinds2) if kinds2 and (not kinds or rng.random() < 0.35) else rng.choice(kinds)
@@ -1987,6 +2241,76 @@ def gen_edits(rng, heap: Heap, b: Built, side_root, n_edits):
                 if n0 and n1:
                     pairs = [[pairs[0][0], n1], [pairs[1][0], n0]]
             e.update(pairs=pairs)
+        elif k in ("insertInput", "insertOutput", "removeInput", "removeOutput", "delInputAt", "delOutputAt", "setInputAt",
+                   "setOutputAt", "extendInputs", "extendOutputs", "clearInputs", "clearOutputs", "setInputsStep",
+                   "setOutputsStep", "delInputsStep", "delOutputsStep"):  # fmt: skip
+            g = rng.choice(gv)
+            gr = heap.obj(g)
+            cur = list(gr.inputs if "Input" in k else gr.outputs)
+            n_cur = len(cur)
+            cands = [R[id(x)] for x in list(gr.inputs) + list(gr.initializers.values()) + list(gr.outputs) if id(x) in R]
+            pick = lambda: rng.choice(cands) if cands and rng.random() < 0.7 else rng.choice(vv)  # noqa: E731
+            e.update(g=g)
+            if k.startswith("insert"):
+                e.update(i=rng.randrange(-n_cur - 2, n_cur + 3), v=pick())
+            elif k.startswith("remove"):
+                listed = [R[id(x)] for x in cur if id(x) in R]
+                e.update(v=rng.choice(listed) if listed and rng.random() < 0.75 else rng.choice(vv))
+            elif k.endswith("At"):
+                e.update(i=rng.randrange(-n_cur - 1, n_cur + 1))
+                if k.startswith("set"):
+                    e.update(v=pick())
+            elif k.startswith("extend"):
+                e.update(vs=[pick() for _ in range(rng.randrange(0, 3))])
+            elif k.endswith("Step"):
+                bound = lambda: None if rng.random() < 0.35 else rng.randrange(-n_cur - 1, n_cur + 2)  # noqa: E731
+                a, bb = bound(), bound()
+                step = rng.choice([2, 2, -1, -1, -2, 3, 1, 0] if k.startswith("set") else [1, 1, 2, 2, -1, -2, 3, 0])
+                e.update(a=a, b=bb, step=step)
+                if k.startswith("set"):
+                    n_sel = len(range(*slice(a, bb, step).indices(n_cur))) if step else 0
+                    # an extended slice takes exactly as many values as it selects (mostly respected)
+                    e.update(vs=[pick() for _ in range(n_sel if rng.random() < 0.75 else rng.randrange(0, 3))])
+        elif k == "setdefaultInit":
+            g = rng.choice(gv)
+            gr = heap.obj(g)
+            cands = [R[id(x)] for x in list(gr.inputs) + list(gr.initializers.values()) if id(x) in R]
+            v = rng.choice(cands) if cands and rng.random() < 0.7 else rng.choice(vv)
+            nm = heap.obj(v).name
+            keys = list(gr.initializers.keys())
+            e.update(g=g, v=v, key=nm if (nm and rng.random() < 0.6) else rng.choice(keys + ["w1", "fresh_key", ""]))
+        elif k == "replaceNodes":
+            g = rng.choice(gv)
+            own = [R[id(x)] for x in heap.obj(g) if id(x) in R]
+            n_old = rng.randrange(1, 3)
+            if own and rng.random() < 0.85:
+                p0 = rng.randrange(len(own))
+                olds = own[p0 : p0 + n_old]  # consecutive nodes of the graph
+            else:
+                olds = [rng.choice(nv) for _ in range(n_old)]
+            anchor = olds[-1] if rng.random() < 0.8 else rng.choice(own or nv)
+            ovs = [R[id(x)] for n in olds for x in heap.obj(n).outputs if id(x) in R]
+            first = heap.obj(olds[0])
+            ins = [None if x is None else R.get(id(x)) for x in first.inputs]
+            if any(x is None and y is not None for x, y in zip(ins, first.inputs)) or rng.random() < 0.2:
+                ins = [rng.choice(vv + [None]) for _ in range(rng.randrange(0, 3))] if vv else []
+            n_new = rng.randrange(1, 4)
+            news = []
+            for j in range(n_new):
+                last = j == n_new - 1
+                k_out = len(ovs) if (last and rng.random() < 0.85) else rng.randrange(1 if not last else 0, 3)
+                nins = ins if j == 0 else [[j - 1, 0]] + ([rng.choice(vv + [None])] if vv and rng.random() < 0.3 else [])
+                news.append({"name": f"rpn{fresh}_{j}", "opname": "Identity", "inputs": nins,
+                             "outs": [f"rpn{fresh}_{j}_o{i}" for i in range(k_out)]})  # fmt: skip
+            n_last = len(news[-1]["outs"])
+            if n_last and rng.random() < 0.85:
+                nvs = [[n_new - 1, i] for i in range(min(n_last, len(ovs)))]
+                if rng.random() < 0.85:
+                    ovs = ovs[: len(nvs)]
+            else:
+                nvs = [[kk, i] for kk, nn in enumerate(news) for i in range(len(nn["outs"]))][: rng.randrange(0, 3)]
+            e.update(g=g, anchor=anchor, ns=olds, news=news, ovs=ovs, nvs=nvs)
+            fresh += 1
         elif k in ("insertBefore", "insertAfter"):
             g = rng.choice(gv)
             own = [R[id(x)] for x in heap.obj(g) if id(x) in R]
@@ -2127,8 +2451,24 @@ def real_case(spec, histories_seed, n_hist, n_edits, out, fixed_plans=None):
         # oracle on the real objects
         vm = tap.maps[0]
         res["vmap"] = sorted((heap.ids.get(id(k), -1), heap.ids.get(id(v), -1)) for k, v in vm.items())
-        check_wiring(out, spec, src, clone, {id(k): v for k, v in vm.items()}, allow, tag)
+        if spec.get("irregular"):
+            # the walker makes no claim here (C13_irregular_reachable): the wiring image / bijection may fail
+            out.count(f"observation=irregular-shape:{spec['irregular']}")
+        else:
+            check_wiring(out, spec, src, clone, {id(k): v for k, v in vm.items()}, allow, tag)
     elif step["op"] == "graphClone":
+        out.count("value_map_not_captured")
+    elif step["op"] == "funcClone" and len(tap.maps) == 1 and isinstance(tap.maps[0], dict):
+        # C13_wiring_image_function: ONE cloner for the body and the graph-valued attribute declarations
+        vm = tap.maps[0]
+        res["vmaps"] = [sorted((heap.ids.get(id(k), -1), heap.ids.get(id(v), -1)) for k, v in vm.items())]
+        check_wiring(out, spec, src, clone, {id(k): v for k, v in vm.items()}, False, tag)
+    elif step["op"] == "modelClone" and tap.maps and all(isinstance(m_, dict) for m_ in tap.maps):
+        # C13_wiring_image_model: one cloner for the main graph, then one per function, in order
+        res["vmaps"] = [sorted((heap.ids.get(id(k), -1), heap.ids.get(id(v), -1)) for k, v in vm.items())
+                        for vm in tap.maps]  # fmt: skip
+        check_wiring_model(out, spec, src, clone, tap.maps, tag)
+    elif step["op"] in ("funcClone", "modelClone"):
         out.count("value_map_not_captured")
     # cloning must not change what the source owns (usage records by clone nodes are excluded by snapshot())
     if [snapshot(r) for r in all_roots] != snap_all_before:
@@ -2142,6 +2482,8 @@ def real_case(spec, histories_seed, n_hist, n_edits, out, fixed_plans=None):
         # unchanged" has no independent copy to talk about
         out.count("histories_skipped_entangled_clone")
         n_hist = 0
+    if spec.get("irregular"):
+        n_hist = 0  # the stream is about the walker's `irregular` verdicts and the clone itself
     for h in range(n_hist):
         side = "clone" if h % 2 == 0 else "orig"
         plans.append((side, gen_edits(rng, heap, b, clone if side == "clone" else src, n_edits)))
@@ -2168,7 +2510,8 @@ def real_case(spec, histories_seed, n_hist, n_edits, out, fixed_plans=None):
             # C13_functionalize_any: functionalize(Sequential(...) / PassManager(...)) of stages that edit the model they
             # are handed and / or return a NEW ir.Model built around its graph; the edit history is split over the
             # editing stages.  Oracle: deep snapshot (and serialized proto) of the input model before / after.
-            entry = run_staged_functionalize(out, spec, t, edits, b2, heap2, roots2, src2, clone_id, len(res["world1"]), tag)
+            runner = run_hooked_functionalize if t["stages"].get("hooks") else run_staged_functionalize
+            entry = runner(out, spec, t, edits, b2, heap2, roots2, src2, clone_id, len(res["world1"]), tag)
             if entry is not None:
                 res["hist"].append(dict(entry, side=side))
             continue
@@ -2382,6 +2725,195 @@ def run_staged_functionalize(out, spec, t, edits, b2, heap2, roots2, src2, clone
             "stages": stages, "final_id": final_id, "edits": edits}
 
 
+def run_hooked_functionalize(out, spec, t, edits, b2, heap2, roots2, src2, clone_id, n_world1, tag):
+    """C13_functionalize_hooks: `functionalize(P)(model)` on a fresh build where every pass of P - and P itself, a
+    subclass of Sequential / PassManager - overrides requires() / ensures() with hooks that perform a share of the edit
+    history on the model they are handed and may raise; passes report `modified=True` in the first `mod_rounds` rounds
+    only, PassManager runs with `early_stop`.  Returns the history entry for the model comparison (also when the
+    pipeline raised: the heap after the raising call is compared too)."""
+    plan = t["stages"]
+    hk = plan["hooks"]
+    kinds, steps = list(plan["kinds"]), int(plan.get("steps", 1))
+    manager = bool(plan.get("manager"))
+    early = bool(hk.get("early_stop")) and manager
+    edits = [e for e in edits if e["e"] not in EDIT3_KINDS and e["e"] not in globals().get("EDIT4_KINDS", ())
+             and not (e["e"] == "sort" and _has_subgraphs(heap2, e))]  # fmt: skip
+    slots = [("outer_req", None)] if hk.get("outer") else []
+    for r in range(steps):
+        for j, k in enumerate(kinds):
+            c = r * len(kinds) + j
+            slots.append(("req", c))
+            if k in ("inplace", "destructive"):
+                slots.append(("call", c))
+            slots.append(("ens", c))
+    if hk.get("outer"):
+        slots.append(("outer_ens", None))
+    chunks: dict = {sl: [] for sl in slots}
+    for j, e in enumerate(edits):
+        chunks[slots[min(j * len(slots) // len(edits), len(slots) - 1)]].append(e)
+    raise_at = tuple(hk["raise"]) if hk.get("raise") else None
+    st: dict = {"next": 0, "cur": -1, "outcomes": [], "ran": [], "done": set()}
+    others = roots2 + [src2]
+    before = ([snapshot(r) for r in others], [serialize(r) for r in others])
+    lax_before = [snapshot(r, shared_state=False) for r in others]
+    t_before = [snapshot(r, tensor_names=True, attr_state=False) for r in others]
+    a_before = [snapshot(r, tensor_names=False, attr_state=True) for r in others]
+    label = (("PassManager" if manager else "Sequential") + ":hooks:" + "+".join(kinds)
+             + f":steps={steps}:early_stop={early}")  # fmt: skip
+    case = {"spec": spec, "side": "clone", "edits": edits}
+
+    def see(model):
+        if "first" not in st:
+            st["first"] = model
+            if model is b2.model or model.graph is b2.model.graph:
+                st["same"] = True
+            else:
+                cid2 = heap2.add_root(model)
+                w1 = heap2.dump()
+                assert cid2 == clone_id and len(w1) == n_world1, "non-deterministic build"
+
+    def run_slot(slot, model):
+        see(model)
+        st["ran"].append(slot)
+        if st.get("same"):
+            model.graph.doc_string = f"edited by {slot}"
+        else:
+            for e in chunks.get(slot, []):
+                st["outcomes"].append(apply_edit(heap2, b2, e))
+                st["done"].add(id(e))
+        if raise_at == slot:
+            raise RuntimeError(f"hook {slot} raises")
+
+    def modified():
+        return (st["cur"] // len(kinds)) < int(hk.get("mod_rounds", 0))
+
+    def rewrap(model):
+        return ir.Model(model.graph, ir_version=model.ir_version, producer_name="stamped",
+                        producer_version=model.producer_version, domain=model.domain, model_version=model.model_version,
+                        doc_string=model.doc_string, functions=list(model.functions.values()),
+                        metadata_props=dict(model.metadata_props),
+                        device_configurations=model.device_configurations)  # fmt: skip
+
+    class Hooks:
+        def requires(self, model):
+            st["cur"] = st["next"]
+            st["next"] += 1
+            run_slot(("req", st["cur"]), model)
+
+        def ensures(self, model):
+            run_slot(("ens", st["cur"]), model)
+
+    class InPlaceStage(Hooks, ir.passes.InPlacePass):
+        def call(self, model):
+            run_slot(("call", st["cur"]), model)
+            return ir.passes.PassResult(model, modified())
+
+    class StampStage(Hooks, ir.passes.FunctionalPass):
+        def call(self, model):
+            see(model)
+            return ir.passes.PassResult(rewrap(model), modified())
+
+    class DestructiveStage(Hooks, ir.passes.PassBase):
+        in_place = False
+        changes_input = True
+
+        def call(self, model):
+            run_slot(("call", st["cur"]), model)
+            return ir.passes.PassResult(rewrap(model), modified())
+
+    class OuterHooks:
+        def requires(self, model):
+            if hk.get("outer"):
+                run_slot(("outer_req", None), model)
+
+        def ensures(self, model):
+            if hk.get("outer"):
+                run_slot(("outer_ens", None), model)
+
+    class SeqH(OuterHooks, ir.passes.Sequential):
+        pass
+
+    class MgrH(OuterHooks, ir.passes.PassManager):
+        pass
+
+    passes = [{"inplace": InPlaceStage, "rewrap": StampStage, "destructive": DestructiveStage}[k]() for k in kinds]
+    pipeline = MgrH(passes, steps=steps, early_stop=early) if manager else SeqH(*passes)
+    out.count(f"functionalize_pipeline={label}")
+    out.count(f"hooks_raise_at={raise_at[0] if raise_at else None}")
+    result, exc_kind = None, None
+    try:
+        result = ir.passes.functionalize(pipeline)(b2.model)
+    except (ir.passes.PassError, ir.passes.InvariantError) as e:
+        x, names = e, []
+        while x is not None and len(names) < 10:
+            names.append(type(x).__name__)
+            x = x.__cause__
+        exc_kind = next((n for n in names if n in ("PreconditionError", "PostconditionError")), names[0])
+    final_id = None
+    if result is not None and not st.get("same"):
+        final_id = heap2.add_root(result.model)
+    world2 = heap2.dump() if not st.get("same") else None
+    rounds_real = (st["next"] + len(kinds) - 1) // len(kinds)
+    out.count(f"hooks_outcome={exc_kind or 'ok'}:rounds={rounds_real}/{steps}")
+    # the oracle: the input model (and everything else that existed) is what it was, also after a raising pipeline
+    lax_after = [snapshot(r, shared_state=False) for r in others]
+    t_after = [snapshot(r, tensor_names=True, attr_state=False) for r in others]
+    a_after = [snapshot(r, tensor_names=False, attr_state=True) for r in others]
+    after = ([snapshot(r) for r in others], [serialize(r) for r in others])
+    bad = False
+    if after != before:
+        if lax_after == lax_before and after[1] == before[1]:
+            # only the state of objects the two copies share by design differs (tensor names D113, Attr.meta D114)
+            shared = []
+            if t_after != t_before:
+                shared.append("tensor-name")
+            if a_after != a_before:
+                shared.append("attr-meta")
+            out.fail(f"frame:shared-{'+'.join(shared) or 'state'}:clone-edited:{tag}",
+                     "editing the clone changed a tensor name / Attr.meta that the original shares", case)
+        else:
+            bad = True
+            out.fail(f"functionalize:input-changed:{label}",
+                     "functionalize(pipeline with hooks)(model) changed its input model", case)
+    if st.get("same"):
+        bad = True
+        out.fail(f"functionalize:pass-ran-on-input:{label}",
+                 "functionalize handed the caller's model (or a model around the caller's graph) to a hook / pass", case)
+    if result is not None and result.model is b2.model:
+        bad = True
+        out.fail(f"functionalize:returned-input:{label}", "functionalize returned its input model object", case)
+    # early_stop / steps: the number of rounds that ran is what PassManager promises
+    if exc_kind is None and not bad:
+        mr = int(hk.get("mod_rounds", 0))
+        want = steps if not early else min(steps, mr + 1)
+        if rounds_real != want:
+            out.fail(f"functionalize:rounds:{label}", f"{rounds_real} rounds ran, {want} expected from the modified flags", case)
+    if bad:
+        return None
+    m0 = b2.model
+    hdr = heap2.payload(("hdr", (m0.ir_version, "stamped", m0.producer_version, m0.domain, m0.model_version, m0.doc_string)))
+    # (apply_edit fills in the model-side fields of an edit - payload ids - when it RUNS: only the edits that ran are sent;
+    # a model that runs a hook / round the real code did not reach is caught by the outcome / round count comparison)
+    tr = lambda sl: [translate_edit_later(heap2, b2, e) for e in chunks.get(sl, []) if id(e) in st["done"]]  # noqa: E731
+    rounds = []
+    for r in range(steps):
+        ps = []
+        for j, k in enumerate(kinds):
+            c = r * len(kinds) + j
+            ip, ci = STAGE_FLAGS[k]
+            ps.append({"kind": "inplace" if k == "inplace" else "rewrap", "inPlace": ip, "changesInput": ci, "header": hdr,
+                       "modified": r < int(hk.get("mod_rounds", 0)), "tr": tr(("call", c)),
+                       "requires": {"tr": tr(("req", c)), "raises": raise_at == ("req", c)},
+                       "ensures": {"tr": tr(("ens", c)), "raises": raise_at == ("ens", c)}})  # fmt: skip
+        rounds.append(ps)
+    return {"outcomes": st["outcomes"], "world2": world2,
+            "tr": [translate_edit_later(heap2, b2, e) for e in edits if id(e) in st["done"]],
+            "hooks": {"rounds": rounds, "steps": steps, "earlyStop": early, "exc": exc_kind, "rounds_real": rounds_real,
+                      "outerRequires": {"tr": tr(("outer_req", None)), "raises": raise_at == ("outer_req", None)},
+                      "outerEnsures": {"tr": tr(("outer_ens", None)), "raises": raise_at == ("outer_ens", None)}},
+            "stages": True, "final_id": final_id, "edits": edits}
+
+
 def do_clone_kind(b, kind, t):
     deep = bool(t.get("deep"))
     tgt = b.target()
@@ -2434,8 +2966,11 @@ def map_ids(e, m):
             r[k] = m.get(x, 10**9)
         elif k == "inputs":
             r[k] = [None if y is None else m.get(y, 10**9) for y in x]
-        elif k in ("vs", "ns", "nest"):
+        elif k in ("vs", "ns", "nest", "ovs"):
             r[k] = [m.get(y, 10**9) for y in x]
+        elif k == "news":  # `Edit4.replaceNodes`: an input is None, a value id, or [k, j] (output j of the k-th new node)
+            r[k] = [dict(nn, inputs=[y if (y is None or isinstance(y, list)) else m.get(y, 10**9) for y in nn["inputs"]])
+                    for nn in x]  # fmt: skip
         elif k == "pairs" and e["e"] == "rauwMulti":
             r[k] = [[m.get(a, 10**9), m.get(bb, 10**9)] for a, bb in x]
         elif k == "pairs" and e["e"] == "renameValues":
@@ -2505,7 +3040,7 @@ def replay_seed(seed: int, size: int = 4, n_hist: int = 2, n_edits: int = 6):
 def compare_cases(ctx: Ctx, results):
     # round 1: the clone itself
     reqs = [{"m": "clone.run", "world": r["world0"],
-             "script": [{"op": "wellFormed"}, {"op": "wellFormed2"}, r["step"], {"op": "devLocal"}]}
+             "script": [{"op": "wellFormed"}, {"op": "wellFormed2"}, r["step"], {"op": "devLocal"}, {"op": "closedW"}]}
             for r in results]
     outs = lean_batch_parallel(reqs)
     reqs2, idx2 = [], []
@@ -2531,6 +3066,13 @@ def compare_cases(ctx: Ctx, results):
         # hypothesis `devLocalW w` of C13_closed_sharding (evaluated on the heap after the clone step: the clone must
         # satisfy it again whenever the source did)
         ctx.count(f"hyp_devLocalW={o['outcomes'][3]['r'] == 'ok'}")
+        # `closedW` (C13_irregular_reasons: no 'dangling pointer' verdict on a closed heap), on the heap after the clone
+        # step: every pointer field of every cell names a cell; must hold of every abstracted real heap
+        if o["outcomes"][4]["r"] != "ok":
+            ctx.disagree("abstracted heap has a pointer field that names no cell (closedW = false)", {"spec": spec},
+                         o["outcomes"][4], None)  # fmt: skip
+        else:
+            ctx.count("hyp_closedW=True")
         oc = o["outcomes"][2]
         ctx.case(spec, nontrivial, sample={"target": t, "graph": spec["graph"]["name"], "outcome": r["outcome"]},
                  target=r["tag"], outcome=r["outcome"], model_outcome=oc["r"],
@@ -2559,7 +3101,21 @@ def compare_cases(ctx: Ctx, results):
         m = dict(zip(oi, om))  # impl raw id -> model raw id
         for h in r["hist"]:
             edits = [map_ids(e, m) for e in h["tr"] if e["e"] not in ORACLE_ONLY]
-            if r["spec"]["target"]["kind"] == "functionalize" and h["side"] == "clone" and h.get("stages"):
+            if r["spec"]["target"]["kind"] == "functionalize" and h["side"] == "clone" and h.get("hooks"):
+                # `IrVerif.Clone.functionalizeHooks` (C13_functionalize_hooks): one pass list per round, every call with
+                # the histories of its requires / call / ensures, the raise flags and the `modified` flag it reports
+                hk = h["hooks"]
+                mid = lambda trs: [map_ids(e, m) for e in trs if e["e"] not in ORACLE_ONLY]  # noqa: E731
+                hook = lambda x: {"edits": mid(x["tr"]), "raises": bool(x["raises"])}  # noqa: E731
+                reqs2.append({"m": "clone.functionalizeHooks", "world": r["world0"], "mo": r["step"]["mo"],
+                              "steps": hk["steps"], "earlyStop": hk["earlyStop"],
+                              "outerRequires": hook(hk["outerRequires"]), "outerEnsures": hook(hk["outerEnsures"]),
+                              "rounds": [{"passes": [{"kind": sg["kind"], "inPlace": sg["inPlace"],
+                                                      "changesInput": sg["changesInput"], "header": sg["header"],
+                                                      "modified": sg["modified"], "edits": mid(sg["tr"]),
+                                                      "requires": hook(sg["requires"]), "ensures": hook(sg["ensures"])}
+                                                     for sg in ps]} for ps in hk["rounds"]]})  # fmt: skip
+            elif r["spec"]["target"]["kind"] == "functionalize" and h["side"] == "clone" and h.get("stages"):
                 # `IrVerif.Clone.functionalizeAny` (C13_functionalize_any): every stage instance with its edits
                 reqs2.append({"m": "clone.functionalizeAny", "world": r["world0"], "mo": r["step"]["mo"],
                               "stages": [{"kind": sg["kind"], "inPlace": sg["inPlace"], "changesInput": sg["changesInput"],
@@ -2568,9 +3124,11 @@ def compare_cases(ctx: Ctx, results):
                                          for sg in h["stages"]]})  # fmt: skip
             elif r["spec"]["target"]["kind"] == "functionalize" and h["side"] == "clone":
                 # `IrVerif.Clone.functionalize`: the pass is the edit history
-                reqs2.append({"m": "clone.functionalize", "world": r["world0"], "mo": r["step"]["mo"], "edits": edits})
+                reqs2.append({"m": "clone.functionalize4" if any(x["e"] in EDIT4_KINDS for x in edits) else "clone.functionalize",
+                              "world": r["world0"], "mo": r["step"]["mo"], "edits": edits})  # fmt: skip
             else:
-                reqs2.append({"m": "clone.history", "world": r["world0"], "clone": r["step"], "edits": edits})
+                reqs2.append({"m": "clone.history4" if any(x["e"] in EDIT4_KINDS for x in edits) else "clone.history",
+                              "world": r["world0"], "clone": r["step"], "edits": edits})  # fmt: skip
             idx2.append((r, h, mroots, iroots))
     # the serialization model (C13_faithful_serialize): defined on the abstracted heap? same for clone and original?
     sreqs, sres = [], []
@@ -2654,10 +3212,40 @@ def compare_cases(ctx: Ctx, results):
         m = dict(zip(oi, om))
         real = sorted((m.get(a, -1), m.get(b, -2)) for a, b in r["vmap"])
         model = sorted((a, b) for a, b in v["vm"])
+        if r["spec"].get("irregular"):
+            # the walker makes no claim: the model's map (a list, latest binding first) may bind a value twice where
+            # the real dict overwrites (C13_irregular_reachable); compare what lookups see
+            model = sorted(dict((a, b) for a, b in v["vm"]).items())
         if real != model:
             ctx.disagree("final value map: model vs the real Cloner._value_map", {"spec": r["spec"]}, model, real)
         else:
             ctx.count(f"value_map_equal=True:size={min(len(model), 8)}")
+    # C13_wiring_image_function / C13_wiring_image_model: one value map per cloner (`funcCloneCore`, `modelCloneTrace`)
+    wreqs, wres = [], []
+    for r, o in zip(results, outs):
+        if r.get("vmaps") is None or "err" in o or o["outcomes"][2]["r"] != "ok" or r["outcome"] != "ok":
+            continue
+        key = "f" if r["step"]["op"] == "funcClone" else "mo"
+        wreqs.append({"m": "clone.vmap", "world": r["world0"], key: r["step"][key]})
+        wres.append((r, o))
+    for (r, o), v in zip(wres, lean_batch_parallel(wreqs)):
+        if "err" in v or v["outcome"]["r"] != "ok" or not v.get("same"):
+            ctx.disagree("driver error / outcome (vmaps of Function.clone / Model.clone)", {"spec": r["spec"]},
+                         {k: v.get(k) for k in ("err", "outcome", "same")}, None)  # fmt: skip
+            continue
+        cm, om = canon(v["world"], r["roots"] + [v["outcome"]["id"]])
+        ci, oi = canon(r["world1"], r["roots"] + [r["clone_id"]])
+        if cm != ci:
+            continue  # reported as "heap after clone" above
+        m = dict(zip(oi, om))
+        real = [sorted((m.get(a, -1), m.get(b, -2)) for a, b in vm) for vm in r["vmaps"]]
+        model = [sorted((a, b) for a, b in vm) for vm in v["vms"]]
+        pre = "func" if r["step"]["op"] == "funcClone" else "model"
+        if real != model:
+            ctx.disagree(f"final value maps ({pre}): model vs the real Cloner._value_map of every cloner",
+                         {"spec": r["spec"]}, model, real)  # fmt: skip
+        else:
+            ctx.count(f"{pre}_value_maps_equal=True:cloners={min(len(model), 4)}")
     outs2 = lean_batch_parallel(reqs2)
     for (r, h, mroots, iroots), o in zip(idx2, outs2):
         spec = r["spec"]
@@ -2668,10 +3256,11 @@ def compare_cases(ctx: Ctx, results):
         via_functionalize = "outcomes" not in o  # `clone.functionalize` answers the final heap only
         mo = None if via_functionalize else [x["r"] for x in o["outcomes"][1:]]
         ctx.case(case, bool(h["edits"]), side=h["side"], hist_len=len(h["edits"]))
-        for e, oc in zip(h["edits"], h["outcomes"]):
+        for e, oc in zip(h["edits"], [] if h.get("hooks") else h["outcomes"]):
             ctx.count(f"edit={e['e']}:{oc}")
         keep = [i for i, e in enumerate(h["edits"]) if e["e"] not in ORACLE_ONLY]
-        h = dict(h, edits=[h["edits"][i] for i in keep], outcomes=[h["outcomes"][i] for i in keep])
+        if not h.get("hooks"):  # (a hook pipeline records the outcomes of the edits that RAN: not aligned with the plan)
+            h = dict(h, edits=[h["edits"][i] for i in keep], outcomes=[h["outcomes"][i] for i in keep])
         if via_functionalize:
             ctx.count("via_model_functionalize")
             if o.get("declined"):
@@ -2685,7 +3274,27 @@ def compare_cases(ctx: Ctx, results):
             ctx.disagree(f"edit outcome #{k} {h['edits'][k]['e']}: model {mo[k]}, implementation {h['outcomes'][k]}",
                          case, o["outcomes"][k + 1], h["outcomes"][k])  # fmt: skip
             continue
-        if h.get("stages"):
+        if h.get("hooks"):
+            # C13_functionalize_hooks: outcome (ok / PreconditionError / PostconditionError), number of rounds, heap
+            hk = h["hooks"]
+            ctx.count("via_model_functionalizeHooks")
+            if not o.get("agrees", True):
+                ctx.disagree("driver: the round-by-round run differs from functionalizeHooks", case, o["outcome"], None)
+                continue
+            want = "ok" if hk["exc"] is None else "raised"
+            if o["outcome"]["r"] != want or (want == "raised" and o["outcome"].get("why") != hk["exc"]):
+                ctx.disagree(f"functionalize(pipeline with hooks): model {o['outcome']}, implementation {hk['exc'] or 'returned'}",
+                             case, o["outcome"], hk["exc"])  # fmt: skip
+                continue
+            if o["rounds"] != hk["rounds_real"]:
+                ctx.disagree(f"functionalize(pipeline with hooks): model ran {o['rounds']} rounds, implementation "
+                             f"{hk['rounds_real']}", case, o["rounds"], hk["rounds_real"])  # fmt: skip
+                continue
+            ctx.count(f"hooks_model_outcome={o['outcome'].get('why', 'ok')}:rounds={o['rounds']}")
+            if want == "ok":
+                mroots = mroots + [o["outcome"]["id"]]
+                iroots = iroots + [h["final_id"]]
+        elif h.get("stages"):
             # the model returned by the pipeline is a root too
             ctx.count("via_model_functionalizeAny")
             if o["outcome"]["r"] != "ok":
@@ -2717,6 +3326,10 @@ def run(ctx: Ctx) -> None:
         ctx.merge(part)
         results += res
     compare_cases(ctx, results)
+    # deep_copy of the objects stored in `meta` (C13_deep_copy_meta_*): own stream, own model (IrVerif.Clone.Meta)
+    from harness.c13_meta import run_meta
+
+    run_meta(ctx)
 
 
 def replay(ctx: Ctx, obj: dict) -> None:
@@ -2725,6 +3338,10 @@ def replay(ctx: Ctx, obj: dict) -> None:
 
     logging.disable(logging.CRITICAL)
     case = obj.get("case", obj)
+    if "meta_case" in case or "meta_edge" in case:
+        from harness.c13_meta import replay_meta
+
+        return replay_meta(ctx, obj)
     if "spec" not in case:  # an unchecked-obligation replay: re-run its disagreeing cases
         for d in obj.get("correspondence_disagreements", []):
             replay(ctx, d)
